@@ -1150,6 +1150,9 @@ def server_collect(prop, res, tr):
         for pr in shown:
             if any(e["type"] == "Some" and e["strategy"] != "Parse" for e in pr["per"]):
                 seen.add(hashlib.sha1(json.dumps([r["op"], pr["code"], [(e["strategy"], e["type"], [m["ac"] for m in e["models"]]) for e in pr["per"]]]).encode()).hexdigest())
+    bigc = [t for gl, t in tr["tuples"] if gl is not None and t[0] == "BIGCODE" and t[3] >= 9]
+    res.extra["composed_codes_judged"] = {"judgements": len(bigc), "statements": sorted(set(t[3] for t in bigc)),
+                                          "how": "codes of 9-16 statements are parsed by TLC, split into the connected components of their dependency relation and judged block-wise with AdfCompose (answers and pictures)"}
     for gl, t in tr["tuples"]:
         if gl is not None and t[0] == "DRIFT":
             res.drift.append({"record": t[2], "what": t[3]})
